@@ -188,7 +188,7 @@ def run_unit(ck, unit):
         seen.add(txt)
         v = tr.evaluate(r)
 
-        def on_sat(model, y=y, label=label):
+        def on_sat(model, y=y, label=label, v=v, r=r):
             docj = tr.render_doc(model)
             n0 = br.call(cmd='eval', yaml=yaml, opts=None, doc=docj, mode='flat')
             n1 = br.call(cmd='eval', yaml=y, opts=None, doc=docj, mode='flat')
@@ -203,7 +203,9 @@ def run_unit(ck, unit):
                         tr_ = [i for i, r_ in enumerate(e_['results']) if z3.is_true(model.eval(z3bool(r_.cond()), model_completion=True))]
                         dbg[nm_] = {'res': str(model.eval(e_['res'], model_completion=True)), 'true_paths': tr_,
                                     'values': [str(e_['results'][i].value) + '/' + e_['results'][i].kind for i in tr_],
-                                    'pcs': [[str(c)[:3000] for c in e_['results'][i].pc] for i in tr_[:2]]}
+                                    'pcs': [[c.sexpr() for c in e_['results'][i].pc] for i in tr_[:2]],
+                                    'tree': (base if nm_ == 'orig' else r)['display'],
+                                    'all_paths': [[str(r_.value), len(r_.pc)] for r_ in e_['results']]}
                     json.dump(dbg, open(path + '.dbg', 'w'), indent=1)
                 return ('spurious', 'native verdicts agree (%s)' % path)
             return ('violation', path, '%s: original=%s permuted=%s on %s' % (label, n0['verdict'], n1['verdict'], json.dumps(docj)))
